@@ -393,7 +393,8 @@ def check_key(arr, ret, real, args, kwargs):
     if np.issubdtype(arr[col].dtype, np.integer):
         facs = [2, 3, 10]
     else:
-        facs = [2.0, 0.5, 3.0, 0.1, 7.0]
+        # (also other units altogether: seconds written as micro- or milliseconds and the other way round)
+        facs = [2.0, 0.5, 3.0, 0.1, 7.0, 1e-3, 1e-4, 1e-6, 1e3, 1e5]
     c = rng.choice(facs)
     a3 = arr.copy()
     a3[col] = arr[col] * c
